@@ -8,7 +8,8 @@ _C15_BASES = "bases: 1 tet; 2 tets sharing a face; 3 tets closed around an edge;
 _C15_CPQ = 4      # collapse cases per query (C15_collapse.cpp)
 
 def _c15_order(bases, preops):
-    return [{0: b, 1: p} for b in bases for p in preops]
+    # one tet: one query; larger bases: two queries (cells + first half of the halffaces / second half)
+    return [{0: b, 1: p, 2: part} for b in bases for p in preops for part in ([0] if b == _T_ONE else [1, 2])]
 
 def _c15_labels(cells, kinds):
     return [{0: b, 1: c, 2: k} for (b, c) in cells for k in kinds]
@@ -47,7 +48,7 @@ PROPS["C15"] = dict(
     dict(name="c15-order", harness="C15_order.cpp", entries=["harness_c15_order"], units=_C15_UNITS, unwind=40, checks="none", object_bits=13,
          shards={"quick": _c15_order(range(5), [0]) + _c15_order([_T_FACE], [1, 4, 5, 6]),
                  "thorough": _c15_order(range(5), range(8))},
-         timeout=300, mem_gb=4,
+         timeout={"quick": 300, "thorough": 900}, mem_gb=4,
          bounds=_C15_BASES + ", optionally after one swap_{cell,face,edge,vertex}_indices(first,last) or delete_cell(0) in immediate / deferred / fast mode; "
                 "EVERY live cell and EVERY halfface of the mesh is queried (enumerated, constant); free symbolic: the vertex argument vh (any vertex index of the mesh) of "
                 "get_cell_vertices(ch,vh) / vertex_opposite_halfface / get_halfface_vertices(hfh,vh) and the halfedge argument heh (any halfedge index) of "
@@ -55,25 +56,25 @@ PROPS["C15"] = dict(
     dict(name="c15-labels", harness="C15_labels.cpp", entries=["harness_c15_labels"], units=_C15_UNITS, unwind=40, checks="none", object_bits=13,
          shards={"quick": _c15_labels([(_T_ONE, 0)], range(6)) + _c15_labels([(_T_FACE, 1)], [0, 4]) + _c15_labels([(_T_RING, 2)], [2]),
                  "thorough": _c15_labels(_c15_all_cells(), range(6))},
-         timeout=300, mem_gb=4,
+         timeout={"quick": 300, "thorough": 900}, mem_gb=4,
          bounds=_C15_BASES + "; shard = (base, cell, constructor kind of TetTopology: (ch,abc,a) (ch,abc) (abc,a) (abc) (ch,a) (ch)); all 4 halffaces abc of the cell enumerated; "
                 "free symbolic: vertex a among the 3 vertices of abc, halfedge label index 0..11, halfface label index 0..23 (+ the 8 start-less labels through them), "
                 "probe vertex / halfedge / halfface of get_label over all indices of the mesh, start vertex of TriangleTopology(mesh,hfh,a); "
                 "constexpr label algebra (hel, hel_from/to, hfl_vl, hfl_hel, opposite, inner/outer) for all 12 + 32 labels"),
     dict(name="c15-adds", harness="C15_shape.cpp", entries=["harness_c15_adds"], units=_C15_UNITS, unwind=40, checks="none", object_bits=13,
          shards={"quick": _c15_adds([_T_ONE, _T_FACE]), "thorough": _c15_adds(range(5))},
-         timeout=300, mem_gb=4,
+         timeout={"quick": 300, "thorough": 900}, mem_gb=4,
          bounds=_C15_BASES + "; symbolic selector over 24 constant add_face / add_cell / add_halfface / add_halfedge calls (8 per query): wrong valence (2,4 / 3,5), failing topology "
                 "check (open loop, open surface, halfface twice, halfface already taken, repeated vertex), accepted vertex- and handle-based adds across a boundary face"),
     dict(name="c15-ops", harness="C15_shape.cpp", entries=["harness_c15_ops"], units=_C15_UNITS, unwind=40, checks="none", object_bits=13,
          shards={"quick": _c15_ops([_T_ONE], [0], [OP_DEL_V, OP_DEL_E]) + _c15_ops([_T_ONE], [1], [OP_DEL_E]) + _c15_ops([_T_ONE], [2], [OP_DEL_F]) + _c15_ops([_T_FACE], [0], [OP_SWAP_C, OP_DEL_C]),
                  "thorough": _c15_ops([_T_ONE, _T_FACE], range(4), [OP_DEL_V, OP_DEL_E, OP_DEL_F, OP_DEL_C]) + _c15_ops([_T_ONE], [0], [OP_SWAP_V, OP_SWAP_E, OP_SWAP_F]) + _c15_ops([_T_FACE], [0], [OP_SWAP_C])},
-         timeout=300, mem_gb=4,
+         timeout={"quick": 300, "thorough": 900}, mem_gb=4,
          bounds="K=1 inherited operation (delete_vertex/edge/face/cell for every entity, swap_*_indices for every ordered pair; then collect_garbage in deferred mode) chosen by a symbolic "
                 "selector (8 constant argument tuples per query) on 1 tet / 2 tets sharing a face; afterwards every stored face has valence 3, every stored cell valence 4, every live cell 4 distinct vertices"),
     dict(name="c15-collapse", harness="C15_collapse.cpp", entries=["harness_c15_collapse"], units=_C15_UNITS, unwind=64, checks="none", object_bits=13, witness_any=True,
-         shards={"quick": _c15_collapse([_T_ONE], [0, 1, 2]) + _c15_collapse([_T_FACE], [0, 1, 2], [1, 3]) + _c15_collapse([_T_FACE], [3], [1]) + _c15_deep([_T_FACE], [0, 1], [6]),
-                 "thorough": _c15_collapse([_T_ONE, _T_FACE], range(4)) + _c15_collapse([_T_RING, _T_EDGE, _T_VERTEX], [0, 1, 2], per=2)
+         shards={"quick": _c15_collapse([_T_ONE], [0, 1, 2]) + _c15_collapse([_T_FACE], [0, 1, 2], [2, 3, 6, 7], per=2) + _c15_collapse([_T_FACE], [3], [2, 3], per=2) + _c15_deep([_T_FACE], [0, 1], [6]),
+                 "thorough": _c15_collapse([_T_ONE], range(4)) + _c15_collapse([_T_FACE], range(4), per=2) + _c15_collapse([_T_RING, _T_EDGE, _T_VERTEX], [0, 1, 2], per=2)
                              + _c15_deep([_T_FACE, _T_RING], [0]) + _c15_deep([_T_EDGE], [3])},
          timeout={"quick": 300, "thorough": 900}, mem_gb=5,
          bounds=_C15_BASES + "; collapse_edge(he) for the halfedges of the shard's chunk (4 per query, symbolic selector; quick: all 12 halfedges of the single tet in 3 modes, halfedges 4-7 and 12-15 of the "
